@@ -245,6 +245,37 @@ Definition copy_via (fixed : bool) (base : list str) (hasdir : bool) (dir_raw : 
     end
   else copy_output fixed None s.
 
+(* ---------------------------------------------------------------- translated sources (lex) *)
+(* LexCompiler.default_name: input.path.stripext('.yy' + ext_of_C).suffix - the WHOLE suffix with the
+   extension of its last component replaced (a string: the root is dropped); BaseCompile.__init__ places
+   it within the directory; LexCompiler.output_file: SourceFile(Path(name)) *)
+Definition ext_yyc : str := [c_dot; 121; 121; c_dot; 99].   (* .yy.c *)
+Definition lex_name (l : list str) : list str := map_last (fun c => stem c ++ ext_yyc) l.
+Definition lex_default_name (s : path) : res := reparse (name_root (proot s)) (lex_name (pcomps s)).
+
+Definition lex_source_of (fixed : bool) (d : option path) (s : path) : res :=
+  match lex_default_name s with
+  | Ok n =>
+      match d with
+      | None => reparse (proot n) (pcomps n)
+      | Some d =>
+          match within fixed d n with
+          | Ok q => reparse (name_root (proot q)) (pcomps q)
+          | e => e
+          end
+      end
+  | e => e
+  end.
+
+(* generated_source(file=..., directory=raw) without a name *)
+Definition lex_via (fixed : bool) (base : list str) (hasdir : bool) (dir_raw : list str) (s : path) : res :=
+  if hasdir then
+    match buildpath true base false dir_raw with
+    | Ok d => lex_source_of fixed (Some d) s
+    | e => e
+    end
+  else lex_source_of fixed None s.
+
 (* ---------------------------------------------------------------- duplicate target detection *)
 (* Makefile.rule / NinjaFile.build: the key of a target is its escaped text (_target_str /
    _output_str); [seen] is the set _targets / _build_outputs *)
